@@ -11,4 +11,4 @@ for p in "$@"; do
   grep -E "^VIOLATION|^ANALYSIS-ERROR|^KNOWN" /tmp/_try.out | head -${MAXL:-6}
   [ -n "$VERBOSE" ] && cat /tmp/_try.out
 done
-git -C $WT checkout -q -- .
+git -C $WT reset -q --hard
